@@ -1567,3 +1567,91 @@ Lemma cls_ok_b l : forallb (fun r => pwfb (rcls r)) l = true -> cls_ok l.
 Proof.
   unfold cls_ok. rewrite forallb_forall, Forall_forall. intros H r Hr. apply pwfb_iff. apply H. exact Hr.
 Qed.
+
+Theorem constructors_keep_cache :
+  (forall m k m' r, make m k = Some (m', r) -> cache m' = cache m) /\
+  (forall e1 m e2 m' r, concat e1 m e2 = Some (m', r) -> cache m' = cache m) /\
+  (forall m e rg m' r, mk_loop m e rg = Some (m', r) -> cache m' = cache m) /\
+  (forall m l m' r, inter_list m l = Some (m', r) -> cache m' = cache m) /\
+  (forall m l m' r, union_list m l = Some (m', r) -> cache m' = cache m).
+Proof.
+  exact (conj make_cache (conj concat_cache (conj mk_loop_cache (conj inter_list_cache union_list_cache)))).
+Qed.
+
+(* ------------------------------------------------------------------------------------------ *)
+(** * Characters instead of class ids (partition facts only, still no language semantics) *)
+
+Lemma class_of_good_char p c : pwf p -> good c ->
+  exists k, pclass_of_char p c = Some k /\ In k (pclass_ids p).
+Proof.
+  intros Hp Hc. destruct (c11_class_of_char p c Hp Hc) as [[k Hk] Hi]. exists k. split; [exact Hk|].
+  apply (pclass_ids_spec p k Hp). exists c. split; [exact Hc|]. apply Hi. exact Hk.
+Qed.
+Lemma class_has_good_char p k : pwf p -> In k (pclass_ids p) ->
+  exists c, good c /\ pclass_of_char p c = Some k.
+Proof.
+  intros Hp Hk. apply (pclass_ids_spec p k Hp) in Hk. destruct Hk as [c [Hc Hi]].
+  exists c. split; [exact Hc|]. apply (c11_class_of_char p c Hp Hc). exact Hi.
+Qed.
+
+(* closed under char_derivative for every character *)
+Theorem iter_closed_char fuel m e m' l :
+  iter_derivatives fuel m e = Some (m', l) -> Forall ids_desc l -> cls_ok l ->
+  forall r c, In r l -> good c ->
+  exists d, char_derivative m' r c = Some (m', d) /\ In (rid d) (map rid l).
+Proof.
+  intros H Hd Hcl r c Hr Hc. unfold cls_ok in Hcl. rewrite Forall_forall in Hcl.
+  destruct (class_of_good_char (rcls r) c (Hcl r Hr) Hc) as [k [K1 K2]].
+  destruct (iter_closed _ _ _ _ _ H Hd r k Hr K2) as [d [D1 D2]]. exists d. split; [|exact D2].
+  unfold char_derivative, deriv, coc. rewrite K1. cbn [bind]. exact D1.
+Qed.
+Theorem iter_closed_char_in fuel m e m' l :
+  iter_derivatives fuel m e = Some (m', l) -> Forall ids_desc l -> cls_ok l ->
+  inj_ids (l ++ map snd (cache m')) ->
+  forall r c, In r l -> good c ->
+  exists d, char_derivative m' r c = Some (m', d) /\ In d l.
+Proof.
+  intros H Hd Hcl Hinj r c Hr Hc. unfold cls_ok in Hcl. rewrite Forall_forall in Hcl.
+  destruct (class_of_good_char (rcls r) c (Hcl r Hr) Hc) as [k [K1 K2]].
+  destruct (iter_closed_in _ _ _ _ _ H Hd Hinj r k Hr K2) as [d [D1 D2]]. exists d. split; [|exact D2].
+  unfold char_derivative, deriv, coc. rewrite K1. cbn [bind]. exact D1.
+Qed.
+
+Lemma str_derivative_app u : forall m e v,
+  str_derivative m e (u ++ v) = do (m1, d) <- str_derivative m e u; str_derivative m1 d v.
+Proof.
+  induction u as [|c t IH]; intros m e v; cbn [app str_derivative bind]; [reflexivity|].
+  destruct (deriv m e c) as [[m1 d]|]; cbn [bind]; [apply IH|reflexivity].
+Qed.
+
+(* every iterated derivative of e is yielded, and the final manager computes it from its cache *)
+Theorem iter_complete_str fuel m e m' l :
+  iter_derivatives fuel m e = Some (m', l) -> Forall ids_desc l -> cls_ok l ->
+  inj_ids (l ++ map snd (cache m')) ->
+  forall u, goodw u -> exists d, str_derivative m' e u = Some (m', d) /\ In d l.
+Proof.
+  intros H Hd Hcl Hinj.
+  assert (G : forall u, goodw u -> forall r, In r l -> exists d, str_derivative m' r u = Some (m', d) /\ In d l).
+  { induction 1 as [|c t Hc _ IH]; intros r Hr; cbn [str_derivative]; [eauto|].
+    destruct (iter_closed_char_in _ _ _ _ _ H Hd Hcl Hinj r c Hr Hc) as [d [D1 D2]].
+    unfold char_derivative in D1. rewrite D1. cbn [bind]. apply IH. exact D2. }
+  intros u Hu. apply G; [exact Hu|]. destruct (iter_first _ _ _ _ _ H) as [t ->]. left. reflexivity.
+Qed.
+
+(* every yielded term is an iterated derivative of e *)
+Theorem iter_reachable_str fuel m e m' l :
+  iter_derivatives fuel m e = Some (m', l) -> Forall ids_desc l -> cls_ok l ->
+  inj_ids (l ++ map snd (cache m')) ->
+  forall r, In r l -> exists u, goodw u /\ str_derivative m' e u = Some (m', r).
+Proof.
+  intros H Hd Hcl Hinj r Hr. pose proof (iter_reachable _ _ _ _ _ H Hd r Hr) as R. clear Hr.
+  induction R as [|r cid d R IH Hc Hx].
+  - exists []. split; [constructor|reflexivity].
+  - destruct IH as [u [U1 U2]].
+    pose proof (iter_complete _ _ _ _ _ H Hd Hinj r R) as Hr.
+    unfold cls_ok in Hcl. rewrite Forall_forall in Hcl.
+    destruct (class_has_good_char (rcls r) cid (Hcl r Hr) Hc) as [c [C1 C2]].
+    exists (u ++ [c]). split; [apply Forall_app; split; [exact U1|constructor; [exact C1|constructor]]|].
+    rewrite str_derivative_app, U2. cbn [bind str_derivative]. unfold deriv, coc. rewrite C2. cbn [bind].
+    rewrite (cderiv_cached _ _ _ _ Hx). reflexivity.
+Qed.
